@@ -45,6 +45,12 @@ out.append("\nEach change was written by a sub-agent that saw only the property 
            "property's quick check against the changed tree.  'input' = VIOLATION with a concrete failing input;\n"
            "'tie only' = VIOLATION … no-failing-input-found; 'MISSED' = the check stayed silent at the time of the\n"
            "last run recorded in meta.json (misses are followed up by strengthening the generator/oracle).\n\n")
+_all = [json.load(open(p)) for p in sorted(glob.glob(os.path.join(HERE, "seeded", "*", "meta.json")))]
+_live = [m for m in _all if not m.get("followup")]
+out.append(f"Totals: {len(_all)} confirmed changes kept; {sum(1 for m in _live if m.get('detected_with_failing_input'))} "
+           f"reported with a concrete failing input, {sum(1 for m in _live if m.get('detected') and not m.get('detected_with_failing_input'))} "
+           f"as a broken tie only, {sum(1 for m in _live if not m.get('detected'))} missed at the last recorded run, "
+           f"{len(_all) - len(_live)} made obsolete or superseded by a later fix: commit.\n\n")
 out.append("| seeded change | property | what it needs to manifest | result of the check |\n|---|---|---|---|\n")
 for p in sorted(glob.glob(os.path.join(HERE, "seeded", "*", "meta.json"))):
     m = json.load(open(p))
@@ -52,6 +58,8 @@ for p in sorted(glob.glob(os.path.join(HERE, "seeded", "*", "meta.json"))):
     res = "input" if m.get("detected_with_failing_input") else ("tie only" if m.get("detected") else "MISSED")
     if m.get("followup"):
         res += " → " + m["followup"]
+    elif m.get("note"):
+        res += " (" + m["note"] + ")"
     need = (m.get("needs_to_manifest") or m.get("summary") or "").replace("\n", " ").replace("|", "/")
     out.append(f"| {name} | {m.get('property')} | {need[:260]} | {res} |\n")
 open(path, "w").write("".join(out))
